@@ -72,6 +72,8 @@ fn handle_update_schema<TCompilationProfile: CompilationProfile>(
 
                 return schema_not_found_diagnostic().wrap_err();
             }
+            // Another file was renamed onto the schema (an editor's atomic save): new content.
+            db.get_standard_sources_mut().tracked().schema_source_id = read_schema(db, &schema)?;
         }
         SourceEventKind::Remove(_) => {
             db.remove(db.get_standard_sources().untracked().schema_source_id);
